@@ -23,7 +23,6 @@ import (
 
 	"go.minekube.com/gate/pkg/edition/java/proto/packet"
 	"go.minekube.com/gate/pkg/edition/java/proto/state"
-	"go.minekube.com/gate/pkg/edition/java/proto/version"
 	"go.minekube.com/gate/pkg/edition/java/proxy"
 	"go.minekube.com/gate/pkg/gate/proto"
 	"go.minekube.com/gate/pkg/util/uuid"
@@ -39,7 +38,8 @@ type op struct {
 }
 
 type hist struct {
-	Mode string `json:"mode"`
+	Ver  int    `json:"ver"`
+	Mode string `json:"mode"` // the spec's handler kind for Ver (only selects the op encoding)
 	H    []op   `json:"h"`
 }
 
@@ -92,15 +92,6 @@ func statusName(s packet.ResponseStatus) string {
 	return fmt.Sprintf("status%d", int(s))
 }
 
-func protocolOf(mode string) proto.Protocol {
-	switch mode {
-	case "legacy":
-		return version.Minecraft_1_16_4.Protocol
-	case "legacy117":
-		return version.Minecraft_1_19_4.Protocol
-	}
-	return version.Minecraft_1_20_3.Protocol
-}
 
 // backendWriter records the responses the handler reports to the in-flight backend.
 type backendWriter struct{ p *fakePlayer }
@@ -174,8 +165,8 @@ type session struct {
 	h proxy.VerifResourcePackHandler
 }
 
-func newSession(mode string) *session {
-	p := &fakePlayer{protocol: protocolOf(mode)}
+func newSession(ver int) *session {
+	p := &fakePlayer{protocol: proto.Protocol(ver)}
 	return &session{p: p, h: proxy.VerifNewResourcePackHandler(p, event.Nop)}
 }
 
@@ -230,8 +221,8 @@ func (s *session) call(mode string, o op, watchdog time.Duration) result {
 
 // replay runs a history; upTo < 0 means all of it. It returns the per-call records and
 // whether the last executed call came back.
-func replay(mode string, h []op, watchdog time.Duration) (recs []tracefmt.Rec, hungAt int) {
-	s := newSession(mode)
+func replay(ver int, mode string, h []op, watchdog time.Duration) (recs []tracefmt.Rec, hungAt int) {
+	s := newSession(ver)
 	for i, o := range h {
 		r := s.call(mode, o, watchdog)
 		prompts, reports := s.p.take()
@@ -282,10 +273,10 @@ func TestReplay(t *testing.T) {
 				skipped++
 				continue
 			}
-			recs, hungAt := replay(f.Mode, h, watchdog)
+			recs, hungAt := replay(f.Ver, f.Mode, h, watchdog)
 			if hungAt >= 0 {
 				// confirm by one re-run of the same prefix on a fresh handler
-				recs2, hungAt2 := replay(f.Mode, h[:hungAt+1], watchdog)
+				recs2, hungAt2 := replay(f.Ver, f.Mode, h[:hungAt+1], watchdog)
 				if hungAt2 != hungAt {
 					unconfirmed++
 					recs = recs2 // the re-run came back: keep what it did
@@ -294,7 +285,7 @@ func TestReplay(t *testing.T) {
 					hungIn[f.Mode]++
 				}
 			}
-			tw.Emit(tracefmt.Rec{"ev": "reset", "mode": f.Mode})
+			tw.Emit(tracefmt.Rec{"ev": "reset", "ver": f.Ver, "mode": f.Mode})
 			for _, r := range recs {
 				if p, _ := r["panicked"].(bool); p {
 					panics++
@@ -305,7 +296,7 @@ func TestReplay(t *testing.T) {
 			runs++
 			perMode[f.Mode]++
 			if len(samples) < 3 && len(recs) >= 3 && len(recs[len(recs)-1]["prompts"].([]string)) > 0 {
-				samples = append(samples, map[string]any{"mode": f.Mode, "calls": recs})
+				samples = append(samples, map[string]any{"ver": f.Ver, "mode": f.Mode, "calls": recs})
 			}
 		}
 	}
